@@ -118,6 +118,46 @@ fn check_parsed(text: &str, value: &Value, map: &CodeMap) -> Result<(), String> 
     if map.len() != n {
         return Err(format!("code map has {} entries, traversal {n} fragments", map.len()));
     }
+    // sub_fragments(): the direct children of fragment i are the fragments i+1, then each
+    // following sibling one volume further, up to the end of i's own volume - forwards,
+    // backwards, and alternating from both ends
+    let entries = map.as_slice();
+    for (i, f) in table.iter().enumerate() {
+        let mut children = Vec::new();
+        let end = i + entries[i].volume;
+        let mut c = i + 1;
+        while c < end {
+            children.push(c);
+            c += entries[c].volume.max(1);
+        }
+        let want: Vec<(FK, usize)> = children.iter().map(|&c| addr(&table[c])).collect();
+        let fwd: Vec<(FK, usize)> = f.sub_fragments().map(|g| addr(&g)).collect();
+        if fwd != want {
+            return Err(format!("sub_fragments() of fragment {i} yields {} fragments forwards, its children in the traversal are {:?}", fwd.len(), children));
+        }
+        let mut bwd: Vec<(FK, usize)> = f.sub_fragments().rev().map(|g| addr(&g)).collect();
+        bwd.reverse();
+        if bwd != want {
+            return Err(format!("sub_fragments().rev() of fragment {i} disagrees with its children in the traversal"));
+        }
+        let mut it = f.sub_fragments();
+        let (mut front, mut back) = (Vec::new(), Vec::new());
+        loop {
+            match it.next() {
+                Some(g) => front.push(addr(&g)),
+                None => break,
+            }
+            match it.next_back() {
+                Some(g) => back.push(addr(&g)),
+                None => break,
+            }
+        }
+        back.reverse();
+        front.extend(back);
+        if front != want {
+            return Err(format!("sub_fragments() of fragment {i} consumed alternately from both ends disagrees with its children"));
+        }
+    }
 
     for (i, f) in table.iter().enumerate() {
         match f {
@@ -271,6 +311,40 @@ impl TryFromJson for Leaf {
             Value::String(s) => Ok(Leaf(s.to_string())),
             _ => Err(LeafErr { offset }),
         }
+    }
+}
+
+/// A leaf whose error type also accepts a key-parsing error (for `BTreeMap<u8, _>`).
+#[derive(Debug, PartialEq, Eq, PartialOrd, Ord, Clone)]
+struct KeyedLeaf(String);
+
+impl From<Mapped<std::num::ParseIntError>> for LeafErr {
+    fn from(m: Mapped<std::num::ParseIntError>) -> Self {
+        LeafErr { offset: m.offset }
+    }
+}
+
+impl TryFromJson for KeyedLeaf {
+    type Error = LeafErr;
+    fn try_from_json_at(json: &Value, _code_map: &CodeMap, offset: usize) -> Result<Self, LeafErr> {
+        match json {
+            Value::String(s) => Ok(KeyedLeaf(s.to_string())),
+            _ => Err(LeafErr { offset }),
+        }
+    }
+}
+
+/// An object-level conversion: every member must be a string.
+#[derive(Debug)]
+struct ObjLeaf;
+
+impl json_syntax::TryFromJsonObject for ObjLeaf {
+    type Error = LeafErr;
+    fn try_from_json_object_at(object: &json_syntax::Object, code_map: &CodeMap, offset: usize) -> Result<Self, LeafErr> {
+        for e in object.iter_mapped(code_map, offset) {
+            Leaf::try_from_json_at(e.value.value.value, code_map, e.value.value.offset)?;
+        }
+        Ok(ObjLeaf)
     }
 }
 
@@ -438,6 +512,100 @@ fn conversions(rep: &mut Report, tier: Tier) {
                     t.violation("", format!("BTreeMap<String, Vec<Leaf>>::try_from_json reports offset {got:?}, the offending fragment has index {expected:?}"), case(&text));
                 }
             }
+        }
+    }
+    // maps where an object is expected and something else is found (root and nested), keys that
+    // do not parse as the key type, and the object-level entry points
+    {
+        use json_syntax::TryFromJsonObject;
+        let wrongs = ["1", "null", "[]", "\"s\"", "true"];
+        for w in wrongs {
+            // root
+            let (v, m) = Value::parse_str(&format!(" {w} ")).unwrap();
+            t.evals += 1;
+            let got = explore::guard(|| BTreeMap::<String, Leaf>::try_from_json(&v, &m).err().map(|e| e.offset));
+            if got != Ok(Some(0)) {
+                t.violation("", format!("BTreeMap::try_from_json on the non-object {w}: error offset {got:?}, expected Some(0)"), case(w));
+            }
+            // nested: the k-th item of an array of objects is not an object
+            for n in 1..=3usize {
+                for k in 0..n {
+                    let mut text = String::from("[");
+                    let mut index = 1;
+                    let mut expected = 0;
+                    for j in 0..n {
+                        if j > 0 {
+                            text.push_str(", ");
+                        }
+                        if j == k {
+                            expected = index;
+                            text.push_str(w);
+                            index += 1;
+                        } else {
+                            text.push_str("{\"a\": \"x\", \"b\": \"y\"}");
+                            index += 1 + 2 * 3;
+                        }
+                    }
+                    text.push(']');
+                    let (v, m) = Value::parse_str(&text).unwrap();
+                    t.evals += 1;
+                    t.nontrivial(&text);
+                    let got = explore::guard(|| Vec::<BTreeMap<String, Leaf>>::try_from_json(&v, &m).err().map(|e| e.offset));
+                    if got != Ok(Some(expected)) {
+                        t.violation("", format!("Vec<BTreeMap<String, Leaf>>::try_from_json: error offset {got:?}, the offending fragment has index {expected}"), case(&text));
+                    }
+                    let got = explore::guard(|| Vec::<Box<BTreeMap<String, Leaf>>>::try_from_json(&v, &m).err().map(|e| e.offset));
+                    if got != Ok(Some(expected)) {
+                        t.violation("", format!("Vec<Box<BTreeMap<String, Leaf>>>::try_from_json: error offset {got:?}, the offending fragment has index {expected}"), case(&text));
+                    }
+                    t.outcome("conversion:non-object where a map is expected");
+                }
+            }
+        }
+        // a key that does not parse as the key type is reported at the key's fragment
+        for n in 1..=3usize {
+            for k in 0..n {
+                let mut text = String::from("[0, {");
+                let mut expected = 0;
+                for j in 0..n {
+                    if j > 0 {
+                        text.push_str(", ");
+                    }
+                    // fragments: array 0, number 1, object 2, then entry/key/value triples
+                    if j == k {
+                        expected = 2 + 3 * j + 2;
+                        text.push_str("\"x\": \"v\"");
+                    } else {
+                        text.push_str(&format!("\"{j}\": \"v\""));
+                    }
+                }
+                text.push_str("}]");
+                let (v, m) = Value::parse_str(&text).unwrap();
+                let obj = &v.as_array().unwrap()[1];
+                t.evals += 1;
+                t.nontrivial(&text);
+                let got = explore::guard(|| BTreeMap::<u8, KeyedLeaf>::try_from_json_at(obj, &m, 2).err().map(|e| e.offset));
+                if got != Ok(Some(expected)) {
+                    t.violation("", format!("BTreeMap<u8, _>::try_from_json_at: a key that is not a u8 is reported at offset {got:?}, the key's fragment has index {expected}"), case(&text));
+                }
+                t.outcome("conversion:bad key reported at the key");
+            }
+        }
+        // TryFromJsonObject: the provided method assumes offset 0; Box forwards the offset
+        let text = "{\"a\": \"x\", \"b\": 7}";
+        let (v, m) = Value::parse_str(text).unwrap();
+        let obj = v.as_object().unwrap();
+        t.evals += 2;
+        let got = explore::guard(|| ObjLeaf::try_from_json_object(obj, &m).err().map(|e| e.offset));
+        if got != Ok(Some(6)) {
+            t.violation("", format!("TryFromJsonObject::try_from_json_object: error offset {got:?}, expected Some(6)"), case(text));
+        }
+        let text2 = "[1, {\"a\": \"x\", \"b\": 7}]";
+        let (v2, m2) = Value::parse_str(text2).unwrap();
+        let obj2 = v2.as_array().unwrap()[1].as_object().unwrap();
+        let got = explore::guard(|| Box::<ObjLeaf>::try_from_json_object_at(obj2, &m2, 2).err().map(|e| e.offset));
+        if got != Ok(Some(8)) {
+            t.violation("", format!("Box<_>::try_from_json_object_at(…, 2): error offset {got:?}, expected Some(8)"), case(text2));
         }
     }
     // scalar conversions report the offset they were given
